@@ -14,6 +14,27 @@ def _t(n):
     return n.t if isinstance(n, SI) else (n if z3.is_expr(n) else z3.IntVal(int(n)))
 
 
+def _memo_at(at):
+    """Element functions are closures over closures (every masked store wraps the previous contents): without sharing, evaluating
+    one element re-evaluates common sub-closures exponentially often.  Results are cached per (context, index term, enclosing
+    quantifier scopes) - the scopes matter because axioms emitted while evaluating go to the innermost scope."""
+    if at is None or getattr(at, "_vcx_memo", False):
+        return at
+    cache = {}
+
+    def f(i):
+        c = cur()
+        key = (i.get_id() if z3.is_expr(i) else ("py", i), tuple(id(q[1]) for q in c.qscopes))
+        hit = cache.get(key)
+        if hit is not None and hit[0] is c:
+            return hit[2]
+        r = at(i)
+        cache[key] = (c, i, r)
+        return r
+    f._vcx_memo = True
+    return f
+
+
 class SV:
     _vcx_symbolic = True
     _vcx_asarray = True
@@ -21,9 +42,9 @@ class SV:
 
     def __init__(self, n, at, kind="f", guard=None, owner="solver", arange=False, name=None):
         self.n = _t(n)
-        self.at = at
+        self.at = _memo_at(at)
         self.kind = kind
-        self.guard = guard          # None = dense
+        self.guard = _memo_at(guard)          # None = dense
         self.owner = owner
         self.arange = arange
         self.version = 0
@@ -64,7 +85,7 @@ class SV:
         if self.owner == "user":
             cur().oblige("frame.user_array_not_written", FALSE, kind="frame",
                          note=f"in-place write to user-owned array {self.name}")
-        self.at = at
+        self.at = _memo_at(at)
         self.version += 1
         SV._ncid += 1
         self.cid = SV._ncid
@@ -194,6 +215,8 @@ class SV:
             key = key[0]
         if isinstance(key, slice) and key == slice(None):
             return self          # a view of the whole vector
+        if isinstance(key, FlatNonzero):
+            key = key.mask          # v[np.flatnonzero(mask)] == v[mask]
         if isinstance(key, SV):
             if key.kind == "b":
                 _align_base(self, key, "mask")
@@ -226,6 +249,8 @@ class SV:
     def __setitem__(self, key, val):
         if isinstance(key, tuple) and len(key) == 1:
             key = key[0]
+        if isinstance(key, FlatNonzero):
+            key = key.mask          # v[np.flatnonzero(mask)] = ... writes exactly the positions where mask holds
         old = self.at
         if isinstance(key, slice) and key == slice(None):
             if isinstance(val, SV):
@@ -242,7 +267,8 @@ class SV:
                 if not key.dense():
                     raise Unsupported("store through a compressed mask")
                 _align_base(self, key, "mask")
-                m = lambda i: tobool(key.at(i))
+                kat = key.at          # bound now: the mask may be rewritten in place later (free_bd[i_new] = False)
+                m = lambda i: tobool(kat(i))
             else:
                 _align_n(self, key)
                 m = key.guard or (lambda i: TRUE)
